@@ -21,6 +21,7 @@ CLAIMED = {
  "C13": "Theorems props/C13.v: for all recipient lists (any duplicates) and all backend behaviours exactly one status per recipient in order naming it; under the SetStatus contract the statuses are the independent specification expected_statuses; for every interleaving of handler and delivery task (small-step model with Go channel semantics) the same outcome, no reachable deadlock, termination on fair schedules; BDAT path and plain backend. Tied by lmtp conversations (all recipient sequences <= 4 over 2 addresses x all call sequences within the contract x beyond it x DATA/BDAT).",
  "C17": "Theorems props/C17.v: for every 4xx/5xx code, every enhanced code other than NoEnhancedCode and EVERY message text (any octets, any number of lines) the client's readResponse/toSMTPErr applied to the server's writeError / dataErrorToStatus rendering returns the equal SMTPError (unset enhanced code -> X.0.0 of the class), generic errors map to 451/554; the NoEnhancedCode image is characterised exactly (cannot round-trip by construction of the wire format). Tied by reply cases running the real writeResponse/writeError and Client.readResponse.",
  "C19": "Theorems props/C19.v: with a backend that does not panic no input makes the server model reach a panic (serve_no_panic: the nil-session and other panic points are unreachable), every recovered panic stems from a panicking backend call; the fuel bound (each loop iteration consumes input) gives termination. Line limit and error threshold are modelled exactly (Transport.v, protocol_error) and tied by c19 conversations (lengths L-3..L+5 x positions x segmentations, endless lines, error-threshold mixes, all short hostile strings, random binary).",
+ "C20": "Data races: a generic lockset + happens-before soundness theorem (Lockset.v: mutual exclusion; lock discipline or spawn/join ordering on every conflicting pair => no reachable state has two conflicting accesses enabled, for EVERY sequence of handler invocations, any number of live delivery goroutines and any schedule) instantiated on an access table REGENERATED from /repo's source on every run (tools/accesses -> coq/gen/Accesses.v); the set of racy (field, function, function) triples of the current tree is proved to be EXACTLY the 13 listed pairs (conn_races_exactly, vm_compute) - the unlocked command-loop accesses that race with a concurrent Server.Close / exported accessor (known findings F20*) - and every reachable race is on a listed pair (conn_races_only_known); any new racy access breaks the theorem. Deadlock/leaks: Interleave.v proves no reachable deadlock, delivery goroutines end once their pipe is closed, the capacity-1 result send never blocks. Life cycle: ServerLife.v theorems C20_close_once / C20_shutdown / C20_accept_errors / C20_backoff_shape tied to the real Server by scripted-listener runs. Runtime support (not proof): forced-schedule scenarios under go test -race.",
 }
 
 UNDER = {
@@ -31,7 +32,6 @@ UNDER = {
  "C15": "check under construction in this session (needs Client.v)",
  "C16": "check under construction in this session (DotWriterProofs proves the dot-writer/unstuff round trip; the client composition needs Client.v)",
  "C18": "check under construction in this session (needs Client.v)",
- "C20": "check under construction in this session (lockset theorem + access table translator + life-cycle model)",
 }
 
 hooks_commits = ["408521f", "2ce5b1d"]
